@@ -126,3 +126,18 @@ Theorem C16_source_BuildAuthBodyPost_is_the_model : forall (write : node -> res 
   = PVal (build_auth_body_post write cfg relay sign_requests signed unsigned).
 Proof. exact G_BuildAuthBodyPost_is_model. Qed.
 Print Assumptions C16_source_BuildAuthBodyPost_is_the_model.
+
+(* the composed outbound source (P_PipelineOut.v): BuildAuthBodyPost over the translated document builders of GenSign.v /
+   GenBuild.v: the signed document is posted exactly when SignAuthnRequests is set *)
+From V Require Import Time Xml Build GenPreludeB GenPreludeSign GenBuild GenSign P_PipelineOut.
+Theorem C16_source_BuildAuthBodyPost_composed :
+  forall sign_el write_bytes (sc : sign_cfg) (pc : post_config) now id relay,
+    pm_bind (G_BuildAuthRequestDocument sign_el sc now id) (fun dsig =>
+    pm_bind (G_BuildAuthRequestDocumentNoSig sign_el sc now id) (fun dnosig =>
+      G_BuildAuthBodyPost write_bytes pc relay (Build.b_sign_authn_requests (sc_b sc)) dsig dnosig))
+    = PVal (build_auth_body_post write_bytes pc relay (Build.b_sign_authn_requests (sc_b sc))
+              (if Build.b_sign_authn_requests (sc_b sc) then sign_el (Build.build_authn_request (sc_b sc) id now)
+               else Ok (Build.build_authn_request (sc_b sc) id now))
+              (Ok (Build.build_authn_request (sc_b sc) id now))).
+Proof. exact source_BuildAuthBodyPost_composed. Qed.
+Print Assumptions C16_source_BuildAuthBodyPost_composed.
